@@ -2,6 +2,8 @@
 
 package sod
 
+import "strings"
+
 // C16 — upper/lower constraints canonicalise stored and searched values.
 
 type vCaseIn struct {
@@ -121,5 +123,69 @@ func VH_C16_case() {
 		err := db.InsertOrUpdate(o2)
 		vAssert("C16.unique.canonical", vIff(IsUnique(err), vhLowerASCII(q) == want))
 		vAssert("C16.unique.no_other_error", err == nil || IsUnique(err))
+	}
+}
+
+// VH_C16_unicode: non-ASCII letters, on concrete strings (the symbolic
+// harness above covers every ASCII string): the stored and searched value
+// is Go's full Unicode case mapping of the input.
+func VH_C16_unicode() {
+	root := vTempDir()
+	db := Open(root)
+	LowercaseNames = false
+	vAssert("C16.uni.create", db.Create(&vCase{}, DefaultSchema) == nil)
+	ins := []string{"Émile", "Zé-42", "é", "ÉCOLE", "straße", "ǅ", "ÀÉÎõü", "mixedÄscii"}
+	in := ins[vChoice("in", len(ins))]
+	field := []string{"Up", "Lo", "Uq", "Nest.Low"}[vChoice("field", 4)]
+	o := &vCase{Up: "x", Lo: "x", Uq: "first"}
+	switch field {
+	case "Up":
+		o.Up = in
+	case "Lo":
+		o.Lo = in
+	case "Uq":
+		o.Uq = in
+	case "Nest.Low":
+		o.Nest = &vCaseIn{in}
+	}
+	vAssert("C16.uni.insert", db.InsertOrUpdate(o) == nil)
+	want := strings.ToLower(in)
+	if field == "Up" {
+		want = strings.ToUpper(in)
+	}
+	got, err := db.GetByUUID(&vCase{}, o.UUID())
+	vAssert("C16.uni.get", err == nil)
+	if err != nil {
+		return
+	}
+	g := got.(*vCase)
+	var stored string
+	switch field {
+	case "Up":
+		stored = g.Up
+	case "Lo":
+		stored = g.Lo
+	case "Uq":
+		stored = g.Uq
+	case "Nest.Low":
+		stored = g.Nest.Low
+	}
+	vAssert("C16.uni.stored_canonical", stored == want)
+	// searching with any case variant finds it
+	for _, q := range []string{in, strings.ToLower(in), strings.ToUpper(in)} {
+		s := db.Search(&vCase{}, field, "=", q)
+		vAssert("C16.uni.search.ok", s.Err() == nil)
+		if s.Err() == nil {
+			wq := strings.ToLower(q)
+			if field == "Up" {
+				wq = strings.ToUpper(q)
+			}
+			vAssert("C16.uni.search.case_insensitive", (s.Len() == 1) == (wq == want))
+		}
+	}
+	if field == "Uq" {
+		o2 := &vCase{Up: "y", Lo: "y", Uq: strings.ToUpper(in)}
+		err := db.InsertOrUpdate(o2)
+		vAssert("C16.uni.unique_canonical", IsUnique(err) == (strings.ToLower(strings.ToUpper(in)) == want))
 	}
 }
